@@ -890,3 +890,55 @@ def check_clone_pruning(ctx, rule="CLONE-prune"):
                   f"`{short(g.test, 80)}` leaves an element out of the per-region clone because of a specified style value: the clone is reused for every time, "
                   "so an animation step (or initial value) that changes the style later has nothing to act on")
   return n
+
+
+def check_content_kinds(ctx, rule="COVER-content"):
+  """The content interval of the cached path is extended by the kinds named in one isinstance test of the
+  collector.  Every kind that snapshot generation treats as text (the leaf kinds `_construct_text_list`
+  collects: a line break, a text node) must be covered by that test - directly, or because every kind that
+  may contain it (content model of model.py) is covered - otherwise the cached path skips times at which the
+  uncached path still produces content."""
+  from .dsp import ContentModel, isinstance_classes
+  ix = ctx.ix
+  f = ix.func("ttconv.isd:ISD.significant_times.<locals>.compute_sig_times")
+  ctx.unit(f.module)
+  site = None
+  for st in own_nodes(f.node):
+    if isinstance(st, ast.If) and any(isinstance(x, (ast.Assign, ast.AugAssign)) and "content_interval" in unparse(x.targets[0] if isinstance(x, ast.Assign) else x.target)
+                                       for b_ in st.body for x in ast.walk(b_)):
+      if any(isinstance(c, ast.Call) and isinstance(c.func, ast.Name) and c.func.id == "isinstance" for c in ast.walk(st.test)):
+        site = st
+        break
+  if site is None:
+    raise AnalysisError(f"{f.qualname}: the test that decides which elements extend the content interval was not found")
+  named = set()
+  for c in ast.walk(site.test):
+    if isinstance(c, ast.Call) and isinstance(c.func, ast.Name) and c.func.id == "isinstance" and len(c.args) == 2:
+      spec = c.args[1]
+      for e in (spec.elts if isinstance(spec, (ast.Tuple, ast.List)) else [spec]):
+        r = ix.resolve(f.module, e, cls=f.cls, func=f)
+        if isinstance(r, ClassInfo) and r.name != "Region":
+          named.add(r.qualname)
+  cm = ContentModel(ix)
+  tl = ix.func("ttconv.isd:_construct_text_list")
+  text_kinds = sorted(ix.classes[q].name for q in isinstance_classes(ix, tl) if not cm.allowed.get(ix.classes[q].name))
+  if len(text_kinds) < 2:
+    raise AnalysisError(f"_construct_text_list: expected the leaf kinds Br and Text among its isinstance tests, found {text_kinds}")
+  parents = {k: {p for p, ch in cm.allowed.items() if k in ch} for k in cm.allowed}
+
+  def direct(k):
+    ci = ix.cls(f"ttconv.model:{k}")
+    return any(c.qualname in named for c in ix.mro(ci))
+
+  def covered(k, seen=()):
+    if direct(k):
+      return True
+    if k in seen or not parents.get(k):
+      return False
+    return all(covered(p, seen + (k,)) for p in parents[k])
+  for k in text_kinds:
+    ctx.check(covered(k), rule, f"{f.qualname}|{k} extends the content interval", ctx.where(f.module, site),
+              f"{k} is covered by `{short(site.test, 60)}` directly or through every kind that may contain it ({sorted(parents.get(k, ()))})",
+              f"`{short(site.test, 70)}` does not cover {k} (which may occur under {sorted(parents.get(k, ()))}): at times when only such content is active the cached path "
+              f"(ISD.from_model with a SignificantTimes object) returns an empty snapshot while the uncached path returns the region with its content")
+  return len(text_kinds)
